@@ -13,6 +13,8 @@ import (
 	"github.com/pterm/pterm"
 	"github.com/thushan/olla/internal/core/domain"
 	"github.com/thushan/olla/internal/logger"
+
+	"github.com/thushan/olla/internal/verifhook"
 )
 
 const (
@@ -205,6 +207,7 @@ func (c *HTTPHealthChecker) checkEndpointSafely(ctx context.Context, endpoint *d
 func (c *HTTPHealthChecker) checkEndpoint(ctx context.Context, endpoint *domain.Endpoint) {
 	now := time.Now()
 	result, err := c.healthClient.Check(ctx, endpoint)
+	verifhook.Point("health.store", endpoint.Name)
 
 	oldStatus := endpoint.Status
 	newStatus := result.Status
